@@ -3,7 +3,7 @@ from functools import partial
 
 from . import engine
 from .rules import (tables, errflow, stop, scope, fold, hashorder, eqfield, cast, lock, witness, orpat, guard, parsepure,
-                    kernel, evalorder, layer, export, panic, misc, pairflowrule, variant, folddrop, queryguard)
+                    kernel, evalorder, layer, export, panic, misc, pairflowrule, variant, folddrop, queryguard, iterops)
 
 TRUST = ["rustc: type checking, MIR construction, Instance resolution, auto traits",
          "pest / pest_meta: PEG semantics, silent/atomic rule semantics, PrattParser precedence climbing",
@@ -13,9 +13,6 @@ NOT_APPLICABLE = {
     "C10": "subtype laws (reflexivity, transitivity, bounds, value soundness) quantify over an infinite type universe: deciding "
            "them needs induction or enumeration, not a shape of the code; the only structural surrogate (arm order of "
            "Type::matches) would be a frozen copy of the function, i.e. a false alarm in waiting (DESIGN.md section 4, C10)",
-    "C11": "the iterator operators are written in SimpleSL source embedded in Rust string literals (MAP, FILTER, ITER, the "
-           "TypeFilter template, stdlib/operators.rs): Rust-level static analysis cannot see inside them, and equality of the "
-           "remaining Rust loops to a fold is value-level (DESIGN.md section 4, C11)",
     "C15": "a relation between a printer (Display derives with inline conditionals) and a PEG parser over all types: "
            "value-level round trip; the only structural surrogate would be a source-fragment match (DESIGN.md section 4, C15)",
 }
@@ -35,6 +32,9 @@ def scope_prefix(*prefixes):
 KERNEL_SCOPE = scope_prefix("instruction::bin_op::", "instruction::prefix_op::", "<instruction::bin_op::")
 INDEX_SCOPE = scope_prefix("instruction::at::", "instruction::slicing::", "<instruction::slicing::", "stdlib::len")
 FOLD_SCOPE = lambda bid: "create_from_instruction" in bid or bid.endswith("Recreate>::recreate") or bid.endswith("::recreate")
+ITER_SCOPE = scope_prefix("instruction::reduce::", "<instruction::reduce::", "instruction::bin_op::map::", "instruction::bin_op::filter::",
+                          "instruction::bin_op::partition::", "instruction::unary_operation::iter::", "instruction::type_filter::",
+                          "<instruction::type_filter::", "instruction::r#loop::r#for::")
 STDLIB_SCOPE = scope_prefix("stdlib::", "<stdlib::", "variable::try_from::", "<variable::Variable as std::convert::From<std::io")
 
 prop("C01",
@@ -124,6 +124,23 @@ prop("C09",
      "slice bounds are type-checked (R-ORPAT, R-GUARD), index casts are exact (R-CAST). Does NOT decide the index arithmetic or "
      "slyce's selection.",
      "forbidden-callee scan, panic inventory, cast guards", "")
+
+prop("C11",
+     [iterops.run_src, iterops.run_loop, iterops.run_pick, partial(panic.run, scope=ITER_SCOPE, name="R-PANIC")],
+     "Decides, on the code that implements the iterator operators (13 SimpleSL fragments embedded in the Rust sources, parsed "
+     "with the repository's grammar and analysed path by path; 3 Rust pull loops on the MIR CFG): every iteration pulls its "
+     "source at most once and never after the end marker; f / p run only on delivered elements, once each, never on the end "
+     "marker's payload; no element is dropped unexamined; map / filter / `? T` / `~` do nothing until their result is pulled; "
+     "map returns (true, f(x)), filter and `? T` return x exactly when the test held; $&& / $|| stop at the first deciding "
+     "element and yield true / false on exhaustion; $+ $* $& $| fold with the documented identity and operator in "
+     "(accumulator, element) order; `$ init f` threads the accumulator left to right; `$]` appends each element once; `\\` "
+     "sends an element left exactly when p yields true and returns (with, without); `~` advances its cursor once per element "
+     "from index 0 with the bound tested first; type-guarded dispatchers pick the fragment declared for the tested type. Does "
+     "NOT decide that the computed values equal the sequence definition for all inputs, nor the `for` lowering (tree of "
+     "aggregates; its loop typing is R-LOOPTYPE under C02 / C12).",
+     "symbolic path enumeration over the AST of embedded SimpleSL fragments; CFG path rules on MIR; dispatch recovery",
+     "the fragments are read from the string constants passed to Code::parse; a fragment built at run time from non-constant "
+     "text other than a format! template is reported as undecidable")
 
 prop("C12",
      [stop.run, evalorder.run,
